@@ -151,8 +151,30 @@ func genSrcWrite(rng *hx.Rng, prefix string, nsets int) string {
 		return fmt.Sprintf("%s del %d %d", prefix, i, rng.Range(1, 5))
 	case x < 82:
 		return fmt.Sprintf("%s replace %d %s", prefix, i, joinInts(randomSubset(rng)))
-	default:
+	case x < 90:
 		return fmt.Sprintf("%s apply %d %s %s", prefix, i, joinInts(randomSubset(rng)), joinInts(randomSubset(rng)))
+	}
+	// the argument is not private to the call: another input set, the written set itself, its read-only view, or a
+	// set that is written while it is being read
+	j := rng.Intn(nsets)
+	if rng.Chance(1, 3) {
+		j = i
+	}
+	switch x := rng.Intn(10); {
+	case x < 3:
+		return fmt.Sprintf("%s replaceset %d %d", prefix, i, j)
+	case x < 5:
+		return fmt.Sprintf("%s replaceset %d %d ro", prefix, i, j)
+	case x < 6:
+		return fmt.Sprintf("%s addall %d %d", prefix, i, j)
+	case x < 7:
+		return fmt.Sprintf("%s delall %d %d", prefix, i, j)
+	default:
+		if j == i {
+			j = (i + 1) % nsets
+		}
+
+		return fmt.Sprintf("%s replacemut %d %d %d", prefix, i, j, rng.Range(1, 5))
 	}
 }
 
@@ -375,6 +397,11 @@ func main() {
 		{"sr new", "sr add 0 1", "sr add 1 1", "sr add 0 2", "sr create 0 1,1", "sr del 1 1", "sr replace 0 2,3", "sr apply 1 2,3 3"},
 		// weight update racing the Add of its element (verif hook + parking Less): forced schedule
 		{"ss new less", "ss window"},
+		// Replace / AddAll / DeleteAll whose argument is the set itself, its read-only view, another source, or a set that
+		// is written while it is read (fourth seeded round)
+		{"ds new", "ds apply 0 1,2,3 -", "ds inherit 0,1", "ds replaceset 0 0", "ds replaceset 0 0 ro", "ds add 1 4", "ds replacemut 0 1 5",
+			"ds addall 1 0", "ds delall 0 0", "ds replaceset 1 0"},
+		{"sr new", "sr apply 0 1,2,3 -", "sr add 1 2", "sr create 0 1", "sr replaceset 0 0 ro", "sr replacemut 1 0 4", "sr replacemut 0 1 5", "sr delall 1 1"},
 		// the SortedSet lock inversion (repaired): Add/Delete of an element against updates of its weight
 		{"stress sortedrace plain 1500 1", "stress sortedrace less 1500 2"},
 		// concurrent EvictionEvent callers per fresh slot must share one event (GetOrCreate must re-check under its lock)
